@@ -341,6 +341,13 @@ def one_roundtrip(obs, rng, conv, off, spec):
         obs.expect(type(ems).__name__ == model.expected_class, 'source dataset is detected as the generated convention',
                    lambda: {'got': type(ems).__name__, 'want': model.expected_class})
         fills = {str(name): source_has_fill(variable) for name, variable in src.variables.items()}
+        if chance(rng, 0.5):
+            # the dataset has been USED before it is saved (plotted, queried): whatever that computed must not leak into
+            # the variables that are written
+            with quiet_warnings():
+                used = obs.call('polygons (before saving)', lambda: ems.polygons)
+            if not isinstance(used, Failed):
+                obs.cls('roundtrip:geometry-used-before-saving')
 
         # ---- A: the convention's save method -------------------------------------------------------------
         path_a = os.path.join(tmp, 'a.nc')
